@@ -316,6 +316,21 @@ Section Sound.
   Qed.
 End Sound.
 
+(* `self.a = e` followed by the assertion (a pseudo write through self.a) that the translator emits for every
+   attribute it claims fresh: if the checker accepts, then in EVERY state covered by the entry taint the value
+   just stored denotes library-allocated buffers only -- whether or not execution continues after the store *)
+Lemma bind_then_assert_fresh : forall (own : nat -> owner) n r l T N B C,
+  analyse (SSeq (SBind n r) (SWrite n l)) T = Ok N B C ->
+  forall (st : store) (S : nat -> Prop), covers own st T -> rhs_sem own r st S ->
+  forall b, S b -> own b = Fresh.
+Proof.
+  intros own n r l T N B C Han st S Hcov Hr b Hb.
+  assert (Hex : exec unit own (SSeq (SBind n r) (SWrite n l)) st ([] ++ [(b, tt)]) (Norm (upd st n S))).
+  { eapply X_Seq; [apply X_Bind; exact Hr|]. apply X_Write. unfold upd. rewrite String.eqb_refl. exact Hb. }
+  destruct (analyse_sound unit own _ _ _ _ _ Han st _ _ Hcov Hex) as [F _].
+  inversion F; subst. assumption.
+Qed.
+
 (* the IR semantics of a setup's weight output over-approximates the pipeline model, for all flags:
    the buffer is fresh, or copy_weights is False and it is the caller's weights buffer *)
 Lemma setup_w_sem_justified : forall two_d rv k cw no i,
